@@ -530,8 +530,8 @@ var rAlwaysWraps = &Rule{
 				if view != nil && !view.Reachable(ret.Block()) {
 					continue
 				}
-				var walk func(v ssa.Value, at *ssa.BasicBlock, d int)
-				walk = func(v ssa.Value, at *ssa.BasicBlock, d int) {
+				var walk func(v ssa.Value, lits []lit, d int)
+				walk = func(v ssa.Value, lits []lit, d int) {
 					if res != "" || d > 8 {
 						return
 					}
@@ -539,11 +539,11 @@ var rAlwaysWraps = &Rule{
 					case *ssa.Phi:
 						for i, e := range x.Edges {
 							if view == nil || view.Reachable(x.Block().Preds[i]) {
-								walk(e, x.Block().Preds[i], d+1)
+								walk(e, edgeLits(x.Block().Preds[i], x.Block()), d+1)
 							}
 						}
 					case *ssa.ChangeInterface:
-						walk(x.X, at, d+1)
+						walk(x.X, lits, d+1)
 					case *ssa.MakeInterface:
 						if _, isAl := x.X.(*ssa.Alloc); !isAl {
 							res = "returns a boxed " + describeVal(x.X) + " at " + p.Pos(ret.Pos())
@@ -552,7 +552,7 @@ var rAlwaysWraps = &Rule{
 						if x == fn.Params[pi] {
 							// passing the error through is acceptable only when the decision does not look at the error
 							// (beyond its nilness): e.g. no tags in the context, an empty format.
-							for _, l := range dominatingLits(at) {
+							for _, l := range lits {
 								if isNilTestOf(l.V, fn.Params[pi]) {
 									continue
 								}
@@ -589,7 +589,7 @@ var rAlwaysWraps = &Rule{
 						res = "returns " + describeVal(v) + " at " + p.Pos(ret.Pos())
 					}
 				}
-				walk(ret.Results[ei], ret.Block(), 0)
+				walk(ret.Results[ei], dominatingLits(ret.Block()), 0)
 			}
 			memo[k] = res
 			return res
@@ -1572,5 +1572,34 @@ var rStateFlags = &Rule{
 			c.Check(pure, construct, declared.Pos(), "a pure forwarder to the embedded fmt.State",
 				"the formatting state overrides "+m+" and does not simply forward to the caller's fmt.State: the flags seen by foreign Format methods and by the final verb application (redact.MakeFormat in finishDisplay) differ from those of the original call, so flag variants of %q/%x/%s no longer print what fmt prints for Error()")
 		}
+	},
+}
+
+// ---------------------------------------------------------------------------
+// R-PAYLOAD-DECODER
+
+var rPayloadDecoder = &Rule{
+	Name: "R-PAYLOAD-DECODER",
+	Doc: "a payload that is sent is a payload that is read: every type key with a registered encoder that returns a non-nil protobuf payload also has a registered decoder. An encoder-only key is legitimate when nothing but the message and the safe details travel (the stack-carrying types arrive as opaque values by design); a key that sends a payload which no decoder ever reads loses, from the SECOND hop on, whatever that payload carries - the first hop may rebuild the value through another key's decoder (a foreign-platform errno becomes an OpaqueErrno), but re-encoding it files the payload under a key nobody decodes",
+	Run: func(c *core.Ctx) {
+		n := 0
+		for _, cp := range codecPairs(c) {
+			if cp.Enc == nil || cp.Enc.Blocks == nil {
+				continue
+			}
+			sends := false
+			for _, r := range sx.Returns(cp.Enc) {
+				if len(r.Results) >= 3 && !sx.IsNil(r.Results[2]) {
+					sends = true
+				}
+			}
+			if !sends {
+				continue
+			}
+			n++
+			c.Check(cp.Dec != nil, load.FnName(cp.Enc)+": payload for "+cp.Name, cp.Enc.Pos(), "a decoder is registered under the same key",
+				"the encoder sends a payload but no decoder is registered for "+cp.Name+": a value of this type is rebuilt as an opaque leaf/wrapper after its next hop and everything the payload carries (and the type's own methods answer from) is lost")
+		}
+		c.Min("encoders that send a payload", n, 15)
 	},
 }
